@@ -179,6 +179,30 @@ def cpu_alarm(seconds):
 
 
 # ----------------------------------------------------------------------------------
+# optional trace digest (determinism self-test): every event of every run is hashed
+# ----------------------------------------------------------------------------------
+TRACE = None
+TRACE_ON = os.environ.get('VERIF_TRACE') == '1'
+
+
+def trace_begin():
+    global TRACE
+    TRACE = hashlib.blake2b(digest_size=8) if TRACE_ON else None
+
+
+def trace_feed(ev):
+    if TRACE is not None:
+        TRACE.update(repr(ev).encode('utf-8', 'backslashreplace'))
+
+
+def trace_end():
+    global TRACE
+    d = TRACE.hexdigest() if TRACE is not None else None
+    TRACE = None
+    return d
+
+
+# ----------------------------------------------------------------------------------
 # per-batch result accumulation
 # ----------------------------------------------------------------------------------
 class Acc(object):
@@ -240,22 +264,41 @@ class Acc(object):
 # ----------------------------------------------------------------------------------
 # pool runner
 # ----------------------------------------------------------------------------------
+_UNFINISHED = 0
+
+
 def _worker(job):
     modname, engine, seeds, tier = job
     faulthandler.enable()
     import importlib
     mod = importlib.import_module(modname)
     acc = Acc()
+    global _UNFINISHED
     for s in seeds:
+        one = Acc()
+        if _UNFINISHED >= 3:
+            # circuit breaker: a tree on which runs do not terminate would otherwise cost cpu_alarm seconds per run
+            one.error(f'{engine} seed={s}: skipped after {_UNFINISHED} runs in this worker did not finish')
+            one.runs += 1
+            acc.merge(one)
+            continue
+        trace_begin()
         try:
-            mod.run_one(engine, s, acc, tier)
+            mod.run_one(engine, s, one, tier)
         except (RunTimeout, BudgetExceeded) as e:
-            acc.error(f'{engine} seed={s}: run did not finish: {type(e).__name__} {e}')
+            _UNFINISHED += 1
+            one.error(f'{engine} seed={s}: run did not finish: {type(e).__name__} {e}')
         except HarnessError as e:
-            acc.error(f'{engine} seed={s}: {e}')
+            one.error(f'{engine} seed={s}: {e}')
         except Exception:
-            acc.error(f'{engine} seed={s}: harness exception\n' + traceback.format_exc(limit=8))
-        acc.runs += 1
+            one.error(f'{engine} seed={s}: harness exception\n' + traceback.format_exc(limit=8))
+        one.runs += 1
+        if TRACE_ON:
+            # event trace of the run + everything the run reported
+            d = trace_end()
+            one.sets['rundigests'].add(h64(engine, s, d, one.steps, [(v.get('oracle'), v.get('key')) for v in one.violations],
+                                           sorted(one.counters.items()), sorted((k, sorted(v)) for k, v in one.sets.items())))
+        acc.merge(one)
     return acc
 
 
